@@ -387,8 +387,8 @@ def histories(tier):
     for combo in itertools.product(names, repeat=d):
       if tier == 'quick' and d == 3 and not (combo[0] in derive and combo[2] not in derive):
         continue      # quick: 3-step histories are derive, anything, then a mutation / execution (the observing step)
-      if d == 4 and not (combo[0] in derive and combo[1] in derive and combo[3] not in derive):
-        continue      # 4-step histories (thorough): derive, derive from the result, anything, then the observing step
+      if d == 4 and not (combo[0] in D4_FIRST and combo[1] in derive and combo[3] not in derive):
+        continue      # 4-step histories (thorough): nest / re-option, derive from the result, anything, then the observing step
       # sources: each op applies to X (0) first, later ops apply to the most recently derived object or to X/Y
       for srcs in itertools.product(range(0, d + 3), repeat=d):
         if srcs[0] not in (0, 1, 2):
@@ -401,6 +401,7 @@ def histories(tier):
 
 
 NESTERS = ['sequence', 'group_main', 'group_teardown', 'subtest', 'branch', 'copy']
+D4_FIRST = NESTERS + ['with_args', 'options']
 
 
 def chain_histories():
